@@ -5,5 +5,5 @@ P=$(realpath "$1"); shift
 W=$(mktemp -d /var/tmp/acq-mut.XXXXXX)
 trap 'rm -rf "$W"' EXIT
 rsync -a --exclude _build --exclude .git /repo/ "$W/repo/"
-( cd "$W/repo" && git init -q . 2>/dev/null; patch -p1 -s < "$P" ) || { echo "PATCH-DOES-NOT-APPLY"; exit 3; }
+"$(dirname "$0")/apply_patch.sh" "$W/repo" "$P" || { echo "PATCH-DOES-NOT-APPLY"; exit 3; }
 ACQ_REPO="$W/repo" "$@"
